@@ -184,3 +184,48 @@ func hasDirWound(wounds []*pwr.Wound) bool {
 	}
 	return false
 }
+
+// H_content_real: REGIME R (64 KiB blocks, 4 MiB MaxWoundSize, 32 KiB copies). One signed file of nb blocks + 100
+// bytes, concrete; on disk it differs in ONE symbolic byte at the start of block blk (or is one byte short / long:
+// delta). Every differing offset must be covered by a wound, fail-fast must reject. Params nb, blk, delta.
+func H_content_real() {
+	hlib.SetCopyBuf()
+	B := hlib.B()
+	nb, blk, delta := rt.Param("nb"), rt.Param("blk"), rt.Param("delta")
+	S := make([]byte, nb*B+100)
+	x := uint32(99)
+	for i := range S {
+		x = x*1103515245 + 12345
+		S[i] = byte(x >> 16)
+	}
+	A := append([]byte{}, S...)
+	pos := blk * B
+	d := rt.Byte("damaged")
+	A[pos] = d
+	if delta < 0 {
+		A = A[:len(A)+delta]
+	} else if delta > 0 {
+		A = append(A, make([]byte, delta)...)
+	}
+	root := rt.TempDir()
+	(&hlib.Build{Files: []hlib.File{{Path: "f", Data: S}}}).Write(root + "/s")
+	sig := hlib.SigOf(root + "/s")
+	(&hlib.Build{Files: []hlib.File{{Path: "f", Data: A}}}).Write(root + "/d")
+	wounds, ffErr := validateBoth(root, root+"/d", sig)
+	checkWoundsWellFormed(wounds, sig)
+	covered := false
+	for _, w := range wounds {
+		if w.Kind == pwr.WoundKind_FILE && w.Index == 0 && w.Start <= int64(pos) && int64(pos) < w.End {
+			covered = true
+		}
+	}
+	rt.Assert(rt.Implies(d != S[pos], covered), "the differing offset lies inside a reported wound (real constants)")
+	if delta != 0 {
+		rt.Assert(len(wounds) >= 1 && ffErr != nil, "a file of the wrong length is reported and rejected (real constants)")
+	} else if d == S[pos] {
+		rt.Assert(len(wounds) == 0 && ffErr == nil, "an undamaged file is valid (real constants)")
+	} else {
+		rt.Assert(ffErr != nil, "fail-fast validation rejects the differing file (real constants)")
+	}
+	rt.Reach("end")
+}
